@@ -6,7 +6,16 @@
         verdict = <flagged>:<because>:<R|N|O>:<S|U>:<G|g>:<changed varhex,...|->
         (S = deleting the flagged line keeps every final value, G = inside the guard of the partial theorem)
    snd <fuel> <i> <line>... -> "S" | "U:<varhex>,..."     (delete line i, 0-based)
-   fin <fuel> <line>...   -> "<varhex>=<valuehex|!>" ...   (final values, ! = make aborts) *)
+   fin <fuel> <line>...   -> "<varhex>=<valuehex|!>" ...   (final values, ! = make aborts)
+   path-labelled programs: the first field of a line word is P<pathhex> instead of the file id
+   chkp <fuel> <pline>...  -> as chk, for check_spelled (paths compared as strings, what the Go code does);
+                              soundness/guard are computed on the program with interned file ids
+   chkd <cwdhex> <fuel> <pline>... -> "panic" | "ok <flagged>:<because>:<R|N|O>..." for check_denoted, followed by
+                              " one1" / " one0" (one_spelling_b)
+   sndp <fuel> <i> <pline>... -> as snd
+   chkc <fuel> <line>...   -> as chk, for check_c; a line word that starts with C is inside a conditional section
+   alone <cwdhex> <pkgdirhex> <fragdirhex> <fragbasehex> <dirhex>=<spelledhex>... -> "1" | "0"  (analysed_alone)
+   samed <cwdhex> <phex> <qhex> -> "1" | "0" (same_denotation) *)
 let parse_chunks (s : string) : chunk list =
   if s = "-" then [] else
   List.map (fun c ->
@@ -18,20 +27,35 @@ let parse_chunks (s : string) : chunk list =
 let parse_op = function
   | "a" -> OpAssign | "s" -> OpShell | "e" -> OpEval | "p" -> OpAppend | "d" -> OpDefault
   | _ -> failwith "bad op"
+(* a leading C on the file id = the line is inside a conditional section (used by chkc only) *)
+let is_cond (w : string) : bool = String.length w > 0 && w.[0] = 'C'
+let strip_cond (w : string) : string = if is_cond w then String.sub w 1 (String.length w - 1) else w
 let parse_line (w : string) : line =
-  match String.split_on_char ':' w with
+  match String.split_on_char ':' (strip_cond w) with
   | [f; n; "x"] -> { l_file = n_of_int (int_of_string f); l_lineno = n_of_int (int_of_string n); l_body = None }
   | [f; n; o; v; cs] ->
     { l_file = n_of_int (int_of_string f); l_lineno = n_of_int (int_of_string n);
       l_body = Some { a_var = bytes_of_hex v; a_op = parse_op o; a_val = parse_chunks cs } }
   | _ -> failwith "bad line"
+let parse_pline (w : string) : pline =
+  match String.split_on_char ':' w with
+  | [f; n; "x"] when String.length f > 0 && f.[0] = 'P' ->
+    { pl_path = bytes_of_hex (String.sub f 1 (String.length f - 1)); pl_lineno = n_of_int (int_of_string n); pl_body = None }
+  | [f; n; o; v; cs] when String.length f > 0 && f.[0] = 'P' ->
+    { pl_path = bytes_of_hex (String.sub f 1 (String.length f - 1)); pl_lineno = n_of_int (int_of_string n);
+      pl_body = Some { a_var = bytes_of_hex v; a_op = parse_op o; a_val = parse_chunks cs } }
+  | _ -> failwith "bad pline"
+let kind_letter k = match k with KRedundant -> "R" | KNoEffect -> "N" | KOverwritten -> "O"
 let uniq l = List.sort_uniq compare l
 let handle (args : string list) : string =
   match args with
-  | "chk" :: fuel :: ls ->
+  | ("chk" | "chkp" | "chkc") :: fuel :: ls ->
     let fuel = nat_of_int (int_of_string fuel) in
-    let p = List.map parse_line ls in
-    (match check p with
+    let spelled = (List.hd args = "chkp") in
+    let p = if spelled then intern_by str_eqb (List.map parse_pline ls) else List.map parse_line ls in
+    (match (if spelled then check_spelled (List.map parse_pline ls)
+            else if List.hd args = "chkc" then check_c (List.map (fun w -> (is_cond w, parse_line w)) ls)
+            else check p) with
      | Panic -> "panic"
      | OutOfFuel -> "outoffuel"
      | Ok vs ->
@@ -43,9 +67,26 @@ let handle (args : string list) : string =
            (if guard p vd then "G" else "g")
            (if ch = [] then "-" else String.concat "," (List.map hex_of_bytes ch)) in
        String.concat " " (("ok" ^ (if wf_program p then "" else " wf0")) :: List.map one vs))
-  | "snd" :: fuel :: i :: ls ->
+  | "chkd" :: cwd :: _fuel :: ls ->
+    let cwd = bytes_of_hex cwd in
+    let pp = List.map parse_pline ls in
+    let one = if one_spelling_b cwd pp then " one1" else " one0" in
+    (match check_denoted cwd pp with
+     | Panic -> "panic" ^ one
+     | OutOfFuel -> "outoffuel"
+     | Ok vs ->
+       String.concat " " ("ok" :: List.map (fun vd ->
+           Printf.sprintf "%d:%d:%s" (int_of_nat vd.vd_flagged) (int_of_nat vd.vd_because) (kind_letter vd.vd_kind)) vs) ^ one)
+  | "alone" :: cwd :: pkgdir :: fragdir :: fragbase :: incs ->
+    let incs = List.map (fun w -> match String.split_on_char '=' w with
+        | [d; s] -> (bytes_of_hex d, bytes_of_hex s)
+        | _ -> failwith "bad include") incs in
+    if analysed_alone (bytes_of_hex cwd) (bytes_of_hex pkgdir) (bytes_of_hex fragdir) (bytes_of_hex fragbase) incs then "1" else "0"
+  | ["samed"; cwd; a; b] ->
+    if same_denotation (bytes_of_hex cwd) (bytes_of_hex a) (bytes_of_hex b) then "1" else "0"
+  | ("snd" | "sndp") :: fuel :: i :: ls ->
     let fuel = nat_of_int (int_of_string fuel) in
-    let p = List.map parse_line ls in
+    let p = if List.hd args = "sndp" then intern_by str_eqb (List.map parse_pline ls) else List.map parse_line ls in
     let ch = uniq (changed_vars fuel p (nat_of_int (int_of_string i))) in
     if ch = [] then "S" else "U:" ^ String.concat "," (List.map hex_of_bytes ch)
   | "fin" :: fuel :: ls ->
